@@ -3,7 +3,8 @@
 usage: tools/run_seeds.py [seed ids...]   -> prints one line per seed, writes seeded/RESULTS.json"""
 import json, os, shutil, subprocess, sys, time
 ROOT = os.path.dirname(os.path.dirname(os.path.abspath(__file__)))
-seeds = sys.argv[1:] or sorted(os.listdir(os.path.join(ROOT, "seeded")))
+OWN = "--own" in sys.argv   # only the seed's own property (dependencies make the owning contracts part of it)
+seeds = [a for a in sys.argv[1:] if not a.startswith("--")] or sorted(os.listdir(os.path.join(ROOT, "seeded")))
 seeds = [s for s in seeds if os.path.isdir(os.path.join(ROOT, "seeded", s))]
 man = json.load(open(os.path.join(ROOT, "MANIFEST.json")))
 claimed = {c["property_id"] for c in man["checks"]}
@@ -12,7 +13,7 @@ results = json.load(open(resf)) if os.path.exists(resf) else {}
 for sd in seeds:
     meta = json.load(open(os.path.join(ROOT, "seeded", sd, "meta.json")))
     prop = meta["property"]
-    extra = meta.get("also_check", [])
+    extra = [] if OWN else meta.get("also_check", [])
     scratch = "/var/tmp/seedrun-" + sd
     shutil.rmtree(scratch, ignore_errors=True)
     os.makedirs(scratch)
